@@ -49,7 +49,7 @@ class Ctx:
         self.t0 = time.time()
         # development aid (VERIF_REPO, see build_vh): separate work directory, evidence kept out of evidence/
         self.dev = bool(os.environ.get("VERIF_REPO"))
-        self.work = os.path.join(ROOT, "work", ("dev_" if self.dev else "") + prop)
+        self.work = os.path.join(ROOT, "work", ("dev_" + os.environ.get("VERIF_WORKTAG", "") if self.dev else "") + prop)
         shutil.rmtree(self.work, ignore_errors=True)
         os.makedirs(self.work)
         self.specdir = os.path.join(self.work, "spec")
